@@ -70,6 +70,8 @@ pub struct NodeDump {
     pub observed: Vec<QueryID>,
     /// The dependencies whose edge is currently marked dirty.
     pub dirty_forward: Vec<QueryID>,
+    /// The recorded callers (backward edges) of the query.
+    pub backward: Vec<QueryID>,
     /// The observed dependencies whose observed value fingerprint is the one
     /// the dependency records now.
     pub observed_value_current: Vec<QueryID>,
@@ -115,6 +117,10 @@ pub async fn dump_node<C: Config, Q: Query>(
 
     drop(snapshot);
 
+    // SAFETY: read-only, and the harness calls this between requests only.
+    let backward: Vec<QueryID> =
+        unsafe { engine.get_backward_edges_unchecked(&id).await }.collect();
+
     let mut observed_value_current = Vec::new();
     let mut observed_tfc_current = Vec::new();
     if let Some(observations) = &observations {
@@ -150,6 +156,7 @@ pub async fn dump_node<C: Config, Q: Query>(
         forward,
         observed,
         dirty_forward,
+        backward,
         observed_value_current,
         observed_tfc_current,
     }
